@@ -181,10 +181,11 @@ func TestVerif_C09_Trace(t *testing.T) {
 	}
 	tool := filepath.Join(os.Getenv("VERIF_DIR"), ".build", "asmtrace")
 	if _, err := os.Stat(tool); err != nil {
-		rec.Skipped("asmtrace tool not built: " + err.Error())
+		rec.Skipped("INCONCLUSIVE: asmtrace tool not built: " + err.Error())
 		t.Skip()
 	}
 	var plan []verifC09Entry
+	var pending []func() // cases are only counted once the tracer has actually traced them
 	contents := []string{"seed:1", "seed:2", "zero", "ff", "aa55", "bit:5", "bit:77"}
 	// keys whose round key i is 0 / all ones (found by running the key schedule backwards): a branch or address that depends on
 	// one round-key word shows only for such keys (probability 2^-32 under uniform keys)
@@ -261,7 +262,8 @@ func TestVerif_C09_Trace(t *testing.T) {
 			es = append(es, e)
 		}
 		for _, e := range es {
-			rec.Case(stats.HashS(e.Group, e.Label), nv >= 3 && extreme, "routine:"+base.Routine)
+			e := e
+			pending = append(pending, func() { rec.Case(stats.HashS(e.Group, e.Label), nv >= 3 && extreme, "routine:"+e.Routine) })
 		}
 		if rec.WantSample(base.Routine) {
 			rec.Sample(base.Routine, map[string]interface{}{"group": base.Group, "variants": func() []string {
@@ -288,7 +290,7 @@ func TestVerif_C09_Trace(t *testing.T) {
 	rb, rerr := os.ReadFile(outPath)
 	if rerr != nil {
 		// the tracer could not do its work (ptrace not permitted, objdump missing, child died): inconclusive, never a violation
-		rec.Skipped(fmt.Sprintf("tracer failed (%v): %s", err, string(out)))
+		rec.Skipped(fmt.Sprintf("INCONCLUSIVE: tracer failed (%v): %s", err, string(out)))
 		t.Skipf("HARNESS-INCONCLUSIVE: tracer failed: %v\n%s", err, out)
 	}
 	var res struct {
@@ -311,13 +313,16 @@ func TestVerif_C09_Trace(t *testing.T) {
 	if err := json.Unmarshal(rb, &res); err != nil {
 		t.Skipf("HARNESS-INCONCLUSIVE: bad tracer output: %v", err)
 	}
+	if err != nil || res.Calls != len(plan) {
+		rec.Skipped(fmt.Sprintf("INCONCLUSIVE: tracer incomplete: %v, %d of %d calls: %s", err, res.Calls, len(plan), string(out)))
+		t.Skipf("HARNESS-INCONCLUSIVE: tracer incomplete: %v\n%s", err, out)
+	}
+	for _, f := range pending {
+		f()
+	}
 	rec.Note("traced %d calls in %d groups, %d single-stepped instructions; %d signals suppressed while stepping", res.Calls, len(res.Groups), res.Steps, res.Suppressed)
 	for _, v := range res.VectorIndexed {
 		rec.Note("vector-indexed memory operand (address not evaluated): %s", v)
-	}
-	if err != nil || res.Calls != len(plan) {
-		rec.Skipped(fmt.Sprintf("tracer incomplete: %v, %d of %d calls: %s", err, res.Calls, len(plan), string(out)))
-		t.Skipf("HARNESS-INCONCLUSIVE: tracer incomplete: %v\n%s", err, out)
 	}
 	for _, g := range res.Groups {
 		if g.Mismatch != nil {
